@@ -43,6 +43,9 @@ CLAIMED["C05"] = dict(tech="property-based testing (rapid) against a math/big re
 CLAIMED["C16"] = dict(tech="property-based testing (rapid) with a math/big / string comparison oracle over generated operand values around the literal",
       text="Generated-input search: '<leaf> <op> <literal>' with operand leaves of every integer width, decimal64, string, boolean and enumeration, all six operators, operand unset / equal / neighbouring / random (unsigned and 64-bit extremes), placed as when on container, leaf, list, uses and augment (reads and upserts), as where= on a list and as filter= on a notification stream fed by a harness event node. Visibility, written-ness, kept rows and delivered events must equal the oracle's verdict; an unset operand makes the comparison false.",
       note="Evaluation context as the repository's tests pin it (container: itself, leaf: its parent). Edit cases keep the operand identical in source and target. Negative and > int64 literals are written quoted (the XPath subset has no signed number token).", ref="7 C16")
+CLAIMED["C12"] = dict(cat="fault_enumeration", tech="property-based scenario generation (rapid) + exhaustive fault injection: every callback position of every generated edit scenario fails once; invariants checked over the recorded callback history",
+      text="Generated scenarios (upsert / insert / update / delete / replace x tree shapes x entry point) run with source and target wrapped by a recording node.Node. Each scenario is executed fault-free (K callbacks) and then once per k in 1..K with callback k - Child, Next, Field, Choose, BeginEdit or EndEdit on either side - returning a sentinel error. Over every history: each successful BeginEdit is followed by exactly one EndEdit with the same flags before the call returns, none reaches the source side, the API error wraps the sentinel, and no write follows the failing call.",
+      note="Faults are errors returned by callbacks (not panics, not hangs). Target stores are reference stores; ancestors of the edit root are observed through the wrapper. One open known finding (Choose error on the target is swallowed by design).", ref="7 C12")
 NOT_YET = {}
 props = [json.loads(l) for l in open(os.path.join(ROOT, "properties.jsonl"))]
 checks, na = [], []
